@@ -70,6 +70,10 @@ _ds("C10", "dispatch_apply on seven queue kinds, n in {0,1,2,3,5}, 1-3 CPUs, nes
 _ds("C19", "Block-object scenarios; oracle: body at most once and exactly once unless cancelled, never after a cancel that preceded the submission, a started body always finishes; wait()=0 only after the body's end "
     "(or the submission, if skipped), non-zero only after the full virtual timeout; every notification exactly once and not before completion; testcancel true after cancel returned; no trap/ASan on any schedule.", "DESIGN.md §4 C19")
 
+_ds("C17", "Lifetime scenarios per object type under every schedule within the bound, on an ASan build; oracle: no ASan report or trap, finalizer exactly once with the right context on the target queue and after "
+    "the last item, queue-specific and data destructors exactly once and not before the last holder released, free() of the object observed (a leak is a stuck witness) and never before its last item's end, "
+    "a target queue outlives the queue targeting it.", "DESIGN.md §4 C17")
+
 NOT_YET = {}
 
 def main():
